@@ -43,7 +43,7 @@ TECHNIQUE = "history recorder + block-model twin oracle + exactly-once accountin
 
 RUN_KINDS = ["run_collect", "run_cum", "run_map", "run_first"]
 FC_KINDS = ["fc_store", "fc_sum", "fc_count"]
-FR_KINDS = ["fr_store", "fr_inner"]
+FR_KINDS = ["fr_store", "fr_inner", "fr_custom"]
 
 
 # ------------------------------------------------------------ wrapped elements
@@ -110,6 +110,53 @@ class StoreFR(object):
         self.vals = []
 
 
+class CustomNames(object):
+    """fill / request / reset under names of its own; the methods with the standard names
+    exist too and must never be called (they spoil the results)."""
+
+    def __init__(self):
+        self.vals = []
+
+    def my_fill(self, v):
+        self.vals.append(v)
+
+    def my_request(self):
+        yield ("cfr", list(self.vals))
+
+    def my_reset(self):
+        self.vals = []
+
+    def fill(self, v):
+        self.vals.append(("standard fill() was called", v))
+
+    def request(self):
+        yield ("standard request() was called", list(self.vals))
+
+    def reset(self):
+        self.vals = ["standard reset() was called"]
+
+
+class StopAt(object):
+    """Fill/compute element that signals LenaStopFill when it is given the value *m* (an
+    element telling its caller that it needs no more values); that value is not stored."""
+
+    def __init__(self, m):
+        self.m = m              # the value that stops the filling
+        self.vals = []
+
+    def fill(self, v):
+        import lena.core
+        if v == self.m:
+            raise lena.core.LenaStopFill()
+        self.vals.append(v)
+
+    def compute(self):
+        yield ("st", list(self.vals))
+
+    def reset(self):
+        self.vals = []
+
+
 def make_el(kind):
     import lena.core
     import lena.flow
@@ -130,6 +177,8 @@ def make_el(kind):
         return lena.core.FillCompute(lena.flow.Count())
     if kind == "fr_store":
         return StoreFR()
+    if kind == "fr_custom":
+        return CustomNames()
     if kind == "fr_inner":
         # a real lena fill/request element: FillRequest around a Store, block size 1
         return lena.core.FillRequest(Store(), bufsize=1, reset=True, buffer_input=True)
@@ -141,6 +190,10 @@ def has_reset(kind):
 
 
 def apply_block(kind, el, block):
+    if kind == "fr_custom":
+        for v in block:
+            el.my_fill(v)
+        return list(el.my_request())
     if kind.startswith("run_"):
         return list(el.run(iter(block)))
     for v in block:
@@ -160,7 +213,10 @@ def model_run(kind, n, reset, yor, xs):
             break
         out.extend(apply_block(kind, el, b))
         if reset:
-            el.reset()
+            if kind == "fr_custom":
+                el.my_reset()
+            else:
+                el.reset()
     return out
 
 
@@ -175,6 +231,8 @@ def make_fr(kind, n, mode, reset, yor):
         kw["reset"] = False
     else:
         kw["reset"] = reset
+    if kind == "fr_custom":
+        kw.update(fill="my_fill", request="my_request", reset_name="my_reset")
     return lena.core.FillRequest(make_el(kind), **kw)
 
 
@@ -195,6 +253,20 @@ def cases(tier, seed):
                                "N": N}
                     yield {"k": "split", "kind": kind, "n": n, "mode": mode, "reset": reset,
                            "nmax": min(nmax, 10)}
+    # values that are false or None at every position of the flow (block starts included)
+    for kind in ["run_collect", "run_first", "fc_store", "fc_count", "fr_store", "fr_inner",
+                 "fr_custom"]:
+        for n in range(1, 4):
+            for mode in ["in", "out"]:
+                for yor in [False, True]:
+                    yield {"k": "run_special", "kind": kind, "n": n, "mode": mode,
+                           "reset": has_reset(kind), "yor": yor}
+    # a wrapped element that signals LenaStopFill (the caller - Split - then asks for the
+    # results and drops the element)
+    for n in range(1, 4):
+        for mode in ["in", "out"]:
+            for m in range(1, 10):
+                yield {"k": "stop", "n": n, "mode": mode, "m": m}
     for n in range(1, 5):
         for reset in [False, True]:
             for pre in [False, True]:
@@ -275,6 +347,67 @@ def run_case(r, obs):
             obs.count("oracle_evaluations")
             if N == 0:
                 obs.check(got == [], "run:empty-flow-yields", "empty flow yielded %r" % (got,))
+    elif k == "run_special":
+        kind, n, mode, reset, yor = r["kind"], r["n"], r["mode"], r["reset"], r["yor"]
+        obs.nontrivial = True
+        for N in range(1, 7):
+            for p in range(N):
+                for special in (None, 0, False, "", ()):
+                    xs = list(range(1, N + 1))
+                    xs[p] = special
+                    exp = model_run(kind, n, reset, yor, xs)
+                    fr = make_fr(kind, n, mode, reset, yor)
+                    obs.count("run_executions")
+                    try:
+                        with _guard(obs, 400 * (N + 2) + 2000):
+                            got = list(fr.run(iter(xs)))
+                    except StepBudgetExceeded as e:
+                        obs.fail("run:%s:buffer_%s:nontermination" % (kind.split("_")[0], mode),
+                                 "run(%r): %s" % (xs, e))
+                        continue
+                    obs.count("oracle_evaluations")
+                    if got != exp:
+                        at = "block-start" if p % n == 0 else "inside-a-block"
+                        obs.fail("run:%s:buffer_%s%s:false-or-None-value-at-%s"
+                                 % (kind.split("_")[0], mode, ":yor" if yor else "", at),
+                                 "FillRequest(%s, bufsize=%d, buffer_%sput, reset=%s, "
+                                 "yield_on_remainder=%s).run(iter(%r)) = %r, block model gives %r"
+                                 % (kind, n, mode, reset, yor, xs, got, exp))
+    elif k == "stop":
+        n, mode, m = r["n"], r["mode"], r["m"]
+        obs.nontrivial = True
+        kw = {"bufsize": n, "reset": True}
+        kw["buffer_input" if mode == "in" else "buffer_output"] = True
+        for B in (1, 2, 3, 5, None):
+            for N in range(0, 9):
+                xs = list(range(1, N + 1))
+                # reference: the same Split with the bare element wrapped by a twin adapter is
+                # what is under test; the statement is about the VALUES: everything the
+                # element accepted before it stopped appears exactly once, in full blocks
+                sp = lena.core.Split([lena.core.FillRequest(StopAt(m), **kw)], bufsize=B)
+                obs.count("split_executions")
+                try:
+                    with _guard(obs, 600 * (N + 2) + 3000):
+                        got = list(sp.run(iter(xs)))
+                except StepBudgetExceeded as e:
+                    obs.fail("stop:buffer_%s:nontermination" % mode, "%s" % e)
+                    continue
+                except lena.core.LenaStopFill:
+                    obs.count("stop_signal_escapes_split")
+                    continue
+                obs.count("oracle_evaluations")
+                # the value that made fill() raise was not accepted: it belongs to no block;
+                # the results are the full blocks of the values accepted before it
+                accepted = xs[:xs.index(m)] if m in xs else xs
+                exp = [("st", accepted[i:i + n]) for i in range(0, len(accepted) - n + 1, n)]
+                if got != exp:
+                    shape = classify_diff(got, exp, xs, n)
+                    if any(isinstance(res, tuple) and res[1] == [] for res in got):
+                        shape = "result-for-an-empty-block"
+                    obs.fail("stop:buffer_%s:%s" % (mode, shape),
+                             "Split([FillRequest(StopAt(%d), bufsize=%d, buffer_%sput, "
+                             "reset=True)], bufsize=%r).run(%r) = %r; the element accepted %r, "
+                             "whose full blocks are %r" % (m, n, mode, B, xs, got, accepted, exp))
     elif k == "hist":
         kind, n, mode, reset, N = r["kind"], r["n"], r["mode"], r["reset"], r["N"]
         xs = list(range(1, N + 1))
